@@ -13,6 +13,7 @@ import OFV.Proofs.C11
 import OFV.Proofs.C11Num
 import OFV.Proofs.C11Layers
 import OFV.Proofs.C11Step
+import OFV.Proofs.C11Sweep
 
 namespace OFV.C11
 open OFV OFV.Model.C11
@@ -370,20 +371,8 @@ theorem column_step_zeroes_target (tol : Rat) (htol : 0 < tol) (M : Mat) (i j : 
     (hreal : realish tol (M.get i (j - 1)).conj (M.get i j).conj = true →
       (M.get i (j - 1)).conj.im = 0 ∧ (M.get i j).conj.im = 0)
     (hG : givensElems tol (M.get i (j - 1)).conj (M.get i j).conj true = .ok G) :
-    (rotateCols M G (j - 1) j).get i j = 0 := by
-  rw [rotateCols_get M G (j - 1) j i j hi (by omega) hrow (by omega)]
-  simp only [if_true]
-  unfold givensElems at hG
-  cases hC : cosSinPhase tol (M.get i (j - 1)).conj (M.get i j).conj with
-  | error e => simp [hC, bind, Except.bind] at hG
-  | ok t =>
-    obtain ⟨c, s, ph⟩ := t
-    simp only [hC, bind, Except.bind] at hG
-    injection hG with hG; subst hG
-    have hcsp := cosSinPhase_spec htol hexa hexb hC
-    have hz := assemble_zeroes hcsp true _ hreal
-    simp only [G2.Zeroes, if_true] at hz
-    exact conj_zero_relation _ _ _ _ (assemble_g10_real hcsp true _ hreal) hz
+    (rotateCols M G (j - 1) j).get i j = 0 :=
+  column_step_zeroes_target_aux tol htol M i j G hi hj hrow hexa hexb hreal hG
 
 /-- numeric zero persistence of one step: a row whose two mixed entries are both zero keeps them zero, and
 entries outside the two rotated columns are untouched (any `G`) -/
@@ -391,16 +380,66 @@ theorem column_step_keeps_zero_pairs (M : Mat) (G : G2) (i' j x : Nat) (hi : i' 
     (hrow : j < (M.getD i' []).length) :
     (M.get i' (j - 1) = 0 → M.get i' j = 0 →
       (rotateCols M G (j - 1) j).get i' (j - 1) = 0 ∧ (rotateCols M G (j - 1) j).get i' j = 0) ∧
-    (x ≠ j → x ≠ j - 1 → (rotateCols M G (j - 1) j).get i' x = M.get i' x) := by
-  constructor
-  · intro h1 h2
-    rw [rotateCols_get M G (j - 1) j i' (j - 1) hi (by omega) hrow (by omega),
-        rotateCols_get M G (j - 1) j i' j hi (by omega) hrow (by omega)]
-    have hne : ¬ (j - 1 = j) := by omega
-    simp only [hne, if_false, if_true, h1, h2, gq_mul_zero, gq_add_zero, and_self]
-  · intro hx1 hx2
-    rw [rotateCols_get M G (j - 1) j i' x hi (by omega) hrow (by omega)]
-    simp [hx1, hx2]
+    (x ≠ j → x ≠ j - 1 → (rotateCols M G (j - 1) j).get i' x = M.get i' x) :=
+  column_step_keeps_aux M G i' j x hi hj hrow
+
+/-- **The sweep of `givens_decomposition_square` annihilates the strict upper triangle.**
+For every `n × n` matrix `Q` (no unitarity needed for this part), `always_insert` or not, whenever the Model's
+sweep returns and the run stays in the exact regime (`SweepExact`: every entry compared with the tolerance
+along the run is exactly zero or not below it — the harness establishes this per input by re-running the Model
+with the tolerance scaled by 1000 and 1/1000), the final matrix `M'` — whose diagonal is the returned
+`diagonal` — has `M'[i, j] = 0` for all `i < j < n`.
+Proof: induction over the `2(n-1)-1` iterations with the invariant "every position scheduled so far is zero",
+using `colLayer_effect` (targets zeroed, disjoint pairs, zero pairs kept) and the schedule characterisation
+(`square_zero_persistence` is the index fact that makes the invariant inductive).
+Together with orthonormal rows this gives `M' = D` diagonal with `|D_ii| = 1` (upper-triangular unitary ⇒
+diagonal; NOT formalised), and `M' = Q G₁† ⋯ G_k†` by construction of `rotateCols` (NOT formalised). -/
+theorem square_sweep_annihilates_upper_triangle (tol : Rat) (htol : 0 < tol) (ai : Bool) (n : Nat) (Q : Mat)
+    (ls : List (List Rot)) (M' : Mat) (hQ : Rect Q n n)
+    (h : colSweep tol (squareLayer n) ai (List.range (squareDepth n)) Q = .ok (ls, M'))
+    (hex : SweepExact tol ai (squareLayer n) (List.range (squareDepth n)) Q) :
+    Rect M' n n ∧ ∀ i j, i < j → j < n → M'.get i j = 0 := by
+  rw [List.range_eq_range'] at h hex
+  obtain ⟨hR, hz⟩ := square_sweep_invariant tol htol ai n _ 0 Q ls M' h hex hQ (fun _ _ k' hk' => by omega)
+  refine ⟨hR, ?_⟩
+  intro i j hij hjn
+  obtain ⟨k, hk, hmem, _⟩ := square_schedule_covers n i j hij hjn
+  exact hz i j k (by omega) hmem
+
+/-- **Second stage of `givens_decomposition` (`m < n`).**  If the matrix handed to the sweep has the corner
+`j - i > n - m` zero (what the left-unitary stage is for; hypothesis here) then, in the exact regime, after the
+`n - 1` iterations every entry `(i, j)` with `i < m`, `i < j < n` is zero: the first `m` columns hold the
+returned diagonal, the strict upper part — including all columns `≥ m` above the diagonal band — vanishes. -/
+theorem givens_sweep_annihilates_upper_part (tol : Rat) (htol : 0 < tol) (ai : Bool) (m n : Nat) (hm : m < n)
+    (M : Mat) (ls : List (List Rot)) (M' : Mat) (hM : Rect M m n)
+    (hcorner : ∀ i j, (i, j) ∈ givensLeft m n → M.get i j = 0)
+    (h : colSweep tol (givensLayer m n) ai (List.range (givensDepth n)) M = .ok (ls, M'))
+    (hex : SweepExact tol ai (givensLayer m n) (List.range (givensDepth n)) M) :
+    Rect M' m n ∧ ∀ i j, i < m → i < j → j < n → M'.get i j = 0 := by
+  rw [List.range_eq_range'] at h hex
+  obtain ⟨hR, hc, hz⟩ := givens_sweep_invariant tol htol ai m n hm _ 0 M ls M' h hex hM
+    (by unfold givensDepth; omega) hcorner (fun _ _ k' hk' => by omega)
+  refine ⟨hR, ?_⟩
+  intro i j hi hij hjn
+  rcases givens_upper_triangle_covered m n i j hm hi hij hjn with ⟨hl, _⟩ | ⟨_, k, hk, hmem⟩
+  · exact hc i j hl
+  · exact hz i j k (by omega) hmem
+
+-- non-vacuity: a 1 × 2 isometry (3/5, 4/5): the sweep returns (1, 0); the corner is empty
+example : (colSweep (1/100000000) (givensLayer 1 2) false (List.range (givensDepth 2))
+    [[⟨3/5, 0⟩, ⟨4/5, 0⟩]]).toOption.map (fun r => r.2) = some [[1, 0]] ∧ givensLeft 1 2 = [] := by
+  decide +kernel
+
+-- non-vacuity: on the 3-4-5 rotation the sweep returns and the exact-regime conditions of its only step hold
+example : (colSweep (1/100000000) (squareLayer 2) false (List.range (squareDepth 2))
+    [[⟨3/5, 0⟩, ⟨4/5, 0⟩], [⟨-4/5, 0⟩, ⟨3/5, 0⟩]]).toOption.map (fun r => r.2) =
+    some [[1, 0], [0, 1]] := by decide +kernel
+example : Rect [[⟨3/5, 0⟩, ⟨4/5, 0⟩], [⟨-4/5, 0⟩, ⟨3/5, 0⟩]] 2 2 := by
+  refine ⟨rfl, ?_⟩; intro row h; simp at h; rcases h with rfl | rfl <;> rfl
+
+-- non-vacuity: the exact-regime conditions of that step hold (3/5, 4/5 are far above the tolerance, exactly real)
+example : StepExact (1/100000000) [[⟨3/5, 0⟩, ⟨4/5, 0⟩], [⟨-4/5, 0⟩, ⟨3/5, 0⟩]] 0 1 := by
+  unfold StepExact; decide +kernel
 
 -- non-vacuity: the first step on a 3-4-5 rotation
 example : (givensElems (1/100000000) ((Mat.get [[⟨3/5, 0⟩, ⟨4/5, 0⟩], [⟨-4/5, 0⟩, ⟨3/5, 0⟩]] 0 0).conj)
